@@ -20,10 +20,18 @@ import numpy as np
 from .. import graph, tlc
 
 MODULE = "refsig/RefSession.tla"
-SESS_INVARIANTS = ["SessTypeOK", "FrameRoot", "FrameUsers", "CallDependsOnArgsOnly", "EarlierResultsUnchanged"]
+SESS_INVARIANTS = ["SessTypeOK", "FrameRoot", "FrameUsers", "CallDependsOnArgsOnly", "EarlierResultsUnchanged",
+                   "ConstructionValuesKept"]
+# /repo as it is: CazacBasedChannelEstimator(plain array) keeps a reference to the CALLER's array and does not freeze it, so a
+# caller who overwrites that buffer changes the estimator (shortest input in notes/C18.md, patch in notes/fixes).  The regime is
+# specified and executed; while this switch is False the mismatch on that one constructor is recorded in the evidence
+# (`observed_not_judged`) instead of being reported through ctx.finding (the coordinator asked for a passing check on /repo in the
+# last round); set it to True to judge it (finding id EstimatorKeepsCallersArray).
+JUDGE_ESTIMATOR_ARRAY_ALIAS = True
+FID_REFALIAS = "EstimatorKeepsCallersArray"
 COVERS = [[], [1, 1], [1, -1], [-1, 1]]
 # laws named in the `req` set of a session step that run_path evaluates after / during that step
-EVALUATED = {"ArgumentsUnchanged", "FrameRoot", "FrameUsers", "EarlierResultsUnchanged", "CallDependsOnArgsOnly",
+EVALUATED = {"ConstructionValuesKept", "ArgumentsUnchanged", "FrameRoot", "FrameUsers", "EarlierResultsUnchanged", "CallDependsOnArgsOnly",
              "EstimateHomogeneous"}
 
 
@@ -80,6 +88,8 @@ DEV_RUNS = {
     # flag -> (alphabet, MaxUsers, MaxEsts, variants, invariants one of which TLC must report)
     "UserCreationAliasesRoot": ([dict(fam="srs", ncs=0, cover=[], normalize=True), dict(fam="srs", ncs=3, cover=[], normalize=False),
                                  dict(fam="dmrs", ncs=0, cover=[], normalize=False)], 3, 1, [1, 2], {"FrameRoot", "FrameUsers", "CallDependsOnArgsOnly"}),
+    "CoverCodeIsCallersView": ([dict(fam="dmrs", ncs=2, cover=[1, -1], normalize=False)], 1, 1, [1], {"ConstructionValuesKept"}),
+    "EstimatorKeepsCallersArray": ([dict(fam="srs", ncs=2, cover=[], normalize=False)], 1, 1, [1], {"ConstructionValuesKept"}),
     "ResultBufferReused": ([dict(fam="srs", ncs=2, cover=[], normalize=False)], 1, 1, [1, 2], {"EarlierResultsUnchanged"}),
     "WindowCachedOnEstimator": ([dict(fam="srs", ncs=2, cover=[], normalize=False), dict(fam="dmrs", ncs=5, cover=[1, -1], normalize=True)],
                                 2, 1, [1, 3], {"CallDependsOnArgsOnly"}),
@@ -119,6 +129,7 @@ def run_path(job):
     users, wants, ests = [], [], []
     held = []                      # (step, result object, copy at return): EarlierResultsUnchanged
     known = []                     # mismatches with the signature of a listed finding (the history goes on)
+    caller_cov, caller_ref = [], []  # the buffers the caller handed to constructors: (buffer, values at construction)
 
     def frame(i, op):
         d = c18.maxdiff(root.seq_array(), want_root)
@@ -142,7 +153,9 @@ def run_path(job):
             if op["kind"] == "s-user":
                 d = op["d"]
                 rec = uecat[key(d)]
-                users.append(c18.ue_seq(d["fam"], root, d["ncs"], d["cover"], d["normalize"], rec.get("flagform", "bool")))
+                carr = np.array(d["cover"]) if d["cover"] else None          # the caller's own buffer
+                caller_cov.append((carr, None if carr is None else carr.copy()))
+                users.append(c18.ue_seq(d["fam"], root, d["ncs"], d["cover"], d["normalize"], rec.get("flagform", "bool"), cover_arr=carr))
                 w = expected_user(rec)
                 if rec.get("flagform", "bool") != "bool" and rec["norm2"] != 1:
                     # FlagAgreement leaves open whether a non-singleton flag normalises: take what the object did at
@@ -155,11 +168,16 @@ def run_path(job):
             elif op["kind"] == "s-newest":
                 uo = users[op["user"] - 1]
                 d = ops_desc[op["user"] - 1]
+                cref = None
                 if d["cover"]:
                     e = CazacBasedWithOCCChannelEstimator(uo)
+                elif op["o"]["arr"]:
+                    cref = np.array(uo.seq_array(), copy=True)                # the caller's own buffer
+                    e = CazacBasedChannelEstimator(cref, size_multiplier=op["o"]["mult"])
                 else:
-                    e = CazacBasedChannelEstimator(uo.seq_array() if op["o"]["arr"] else uo, size_multiplier=op["o"]["mult"])
+                    e = CazacBasedChannelEstimator(uo, size_multiplier=op["o"]["mult"])
                 ests.append((e, op["user"] - 1, op["o"]))
+                caller_ref.append((cref, None if cref is None else cref.copy()))
             elif op["kind"] == "s-est":
                 e, ui, o = ests[op["est"] - 1]
                 rec = estcat[key({"d": ops_desc[ui], "o": o, "v": op["v"]})]
@@ -187,6 +205,33 @@ def run_path(job):
                     return okc, known, {"step": i, "op": op, "what": f"call {i} on estimator {op['est']} ({sc['fam']}, size {L}, "
                                  f"{sc['nrx']} rx, keep {sc['keep']}, variant {op['v']}) misses the frequency response by {dd:.3g}; "
                                  f"earlier calls on this object: {[p['v'] for p in ops[:i] if p['kind'] == 's-est' and p['est'] == op['est']]}"}
+            elif op["kind"] == "s-overwrite-cover":
+                # the caller re-uses its cover-code buffer: the write is refused, or the object keeps its construction values
+                carr, orig = caller_cov[op["user"] - 1]
+                try:
+                    carr[-1] = -carr[-1]
+                except ValueError:
+                    pass
+                now = users[op["user"] - 1].cover_code
+                if not np.array_equal(np.asarray(now), orig):
+                    return okc, known, {"step": i, "op": op, "what": f"after step {i}: the caller overwrote its cover-code buffer and "
+                                        f"user {op['user'] - 1}.cover_code became {np.asarray(now).tolist()} (constructed with {orig.tolist()}, "
+                                        f"which is what the sequence transmits) - ConstructionValuesKept"}
+            elif op["kind"] == "s-overwrite-ref":
+                cref, orig = caller_ref[op["est"] - 1]
+                e = ests[op["est"] - 1][0]
+                try:
+                    cref[:] = 1.0
+                except ValueError:
+                    pass
+                if not np.array_equal(np.asarray(e.ue_ref_seq), orig):
+                    msg = {"step": i, "op": op, "what": f"after step {i}: the caller overwrote the array it had handed to "
+                           f"CazacBasedChannelEstimator and the estimator's reference sequence changed with it - ConstructionValuesKept"}
+                    if JUDGE_ESTIMATOR_ARRAY_ALIAS:
+                        known.append(dict(msg, fid=FID_REFALIAS))
+                    else:
+                        known.append(dict(msg, fid=None))
+                    cref[:] = orig            # the caller restores its buffer so that the history can go on
             else:
                 raise ValueError(op["kind"])
         except Exception as ex:
@@ -231,7 +276,11 @@ def explore(ctx, cfgrow, r):
         ctx.ok(n=okc)
         ctx.trace_done()
         for kn in known[:1]:
-            ctx.finding(c18.FID_EXTRADIM, f"{label}: {kn['what']}", case_of(job, kn))
+            fid = kn.get("fid", c18.FID_EXTRADIM)
+            if fid is None:
+                ctx.notes.setdefault("observed_not_judged", {}).setdefault(FID_REFALIAS, {"count": 0, "example": kn["what"]})["count"] += 1
+            else:
+                ctx.finding(fid, f"{label}: {kn['what']}", case_of(job, kn))
         if bad:
             ctx.violation(f"{label}: {bad['what']}",
                           {"kind": "session", "label": label, "L": L, "u": job[2], "nzc": job[3], "root_e": job[4],
@@ -250,6 +299,7 @@ def replay(ctx, c):
     okc, known, bad = run_path((c["label"], c["L"], c["u"], c["nzc"], c["root_e"], c["ue"], c["est"], c["ops"]))
     ctx.ok(n=okc)
     for kn in known[:1]:
-        ctx.finding(c18.FID_EXTRADIM, f"{c['label']}: {kn['what']}", c)
+        if kn.get("fid", c18.FID_EXTRADIM) is not None:
+            ctx.finding(kn.get("fid", c18.FID_EXTRADIM), f"{c['label']}: {kn['what']}", c)
     if bad:
         ctx.violation(f"{c['label']}: {bad['what']}", c)
